@@ -34,7 +34,7 @@ def bench_params(name, seed):
 
 def random_params(rng, i):
     """a parameter set drawn from the documented domain (counts that can be realised with distinct definitions)"""
-    nh = rng.choice([3, 3, 4, 5, 6, 8, 11, 16, 23, 41])
+    nh = rng.choice([3, 3, 4, 5]) if rng.random() < 0.25 else rng.randint(3, 45)
     ns = rng.randint(1, 6)
     nos = rng.randint(1, 4)
     nproc = rng.randint(1, 3)
